@@ -28,6 +28,9 @@ BASES = [
     'async def f():\n    async with a as b:\n        await c\n    return [i async for i in d]\nlambda: (yield)\n',
     # decorated / async one-line compound statements whose bodies are broken mid-expression
     '@dec\nasync def foo(): bar.-\n@dec\nclass K: x(\ny = 2\n@a\n@b\ndef g(): return [\nz = 3\n',
+    # every wrapper combination around a suite: decorated x async x function / method / class, async block statements
+    '@dec\nasync def f():\n    x\n    y\n@dec\nclass K:\n    @a\n    async def m(self):\n        z\n    @b\n    def n(self):\n        w\n'
+    'async def o():\n    async with p as q:\n        r\n    async for s in t:\n        u\n',
 ]
 POOL = ['    x = 1', 'def h():', '  (', ')', '"""', 'else:', '        pass', '@d', 'class K: pass', '\tz', '    return', 'if 1:',
         "f'{", 'x = [', '# c', '', ' ', 'async def q():', '    \\', 'import a; b', 'async def r(): s.', '@t']
